@@ -1,10 +1,10 @@
 """C20 configuration (see lib/propcfg.py for the meaning of the keys)."""
 CFG = dict(
     models=[("model", "Trie")],
-    proofs=[("proofs", "Trie_proofs")],
+    proofs=[("proofs", "Trie_proofs"), ("proofs", "Trie_order")],
     extract="Extract_Trie", module="trie_model", driver="drv_C20.ml", ocaml_extra=["nathelpers.ml"],
     trusted_base=["Go: byte indexing of strings, append, string([]byte); fortio.org/terminal.Terminal{Out} as a plain writer"],
-    level_text="Proved in Coq for every insertion sequence and every query (no bound on sizes): C20_membership (Contains holds exactly for the inserted non-empty words), C20_prefix_query (PrefixAll returns exactly the inserted words starting with the prefix, strictly increasing in byte order, and the reported length is that of their longest common prefix), C20_completion (the completed line extends the typed text and is a prefix of every candidate). The theorems are about coq/model/Trie.v (faithful to trie.go incl. the shared end marker and the min..max scan); the model is tied to /repo by running the extracted model and the real trie + completion callback on every insertion order of small word sets (exhaustive) and random longer words, and a Go map+sort oracle runs beside it.",
+    level_text="Proved in Coq for every insertion sequence and every query (no bound on sizes): C20_membership (Contains holds exactly for the inserted non-empty words), C20_prefix_query (PrefixAll returns exactly the inserted words starting with the prefix, strictly increasing in byte order, and the reported length is that of their longest common prefix), C20_completion (the completed line extends the typed text and is a prefix of every candidate). 'In any order' is explicit: C20_order_independent and C20_membership_order_independent (two insertion sequences with the same elements - any reordering, with or without repetitions - give the same words, the same length and the same membership answers; via: a strictly sorted list is determined by its elements, the longest-common-prefix length is unique). The theorems are about coq/model/Trie.v (faithful to trie.go incl. the shared end marker and the min..max scan); the model is tied to /repo by running the extracted model and the real trie + completion callback on every insertion order of small word sets (exhaustive) and random longer words, and a Go map+sort oracle runs beside it.",
     level_note="Trusted: Coq kernel, extraction (ExtrOcamlBasic), OCaml driver, Go harness, translator; axioms: none (Print Assumptions: closed). The Go trie itself is modelled, not verified; terminal IO of the completion callback is outside the model.",
     assumptions=["the trie is only reached through Insert/Contains/Prefix/PrefixAll/All/AllBytes (children/min/max/valid unexported)",
                  "children array modelled as an association list with array-store semantics; the for-loop over min..max as a list of byte values"],
